@@ -30,6 +30,7 @@ Result(q) ==
     CASE q.kind = "hard"   -> [lp |-> LP(q.n, q.rl), hp |-> HP(q.n, q.rl), lp2 |-> LP(q.n, q.rh), bp |-> BP(q.n, q.rl, q.rh)]
       [] q.kind = "soft"   -> [cls |-> [k \in Freq(q.n) |-> Class(k, q.r, q.f)]]
       [] q.kind = "pixels" -> [pixels |-> Pixels(q.edge, q.px100, q.res100), tie |-> PixelsTie(q.edge, q.px100, q.res100),
+                               decided |-> PixelsDecided(q.edge, q.px100, q.res100),
                                \* the statement quantifies over cutoffs 1 .. N/2
                                inscope |-> Pixels(q.edge, q.px100, q.res100) >= 1 /\ 2 * Pixels(q.edge, q.px100, q.res100) <= q.edge]
 
@@ -86,7 +87,7 @@ C12_ClassRadialSymmetricRayMonotone ==
                         /\ Norm2(Prev(k)) < Norm2(k)
                         /\ Rank(out.cls[k]) <= Rank(out.cls[Prev(k)])
 
-\* resolution -> pixels is the nearest integer to edge * px / res
+\* resolution -> pixels is the nearest integer to edge * px / res, an exact half going to the even neighbour
 C12_PixelsIsNearestInteger ==
     Designed("pixels") =>
         LET num == PixNum(case.edge, case.px100)
@@ -94,6 +95,21 @@ C12_PixelsIsNearestInteger ==
         IN  /\ 2 * Abs(num - p * case.res100) <= case.res100
             /\ out.tie <=> 2 * Abs(num - p * case.res100) = case.res100
             /\ ~out.tie => \A z \in {p - 1, p + 1} : Abs(num - z * case.res100) > Abs(num - p * case.res100)
+            /\ out.tie => p % 2 = 0
+            /\ out.decided <=> (~out.tie \/ Dyadic(case.px100, case.res100))
+
+\* every column of the hard-edged low-pass is the interval the run predicate of the trace specification describes
+C12_ColumnsAreIntervals ==
+    Designed("hard") =>
+        \A k1 \in KRange(case.n[1]), k2 \in KRange(case.n[2]) :
+            LET col == {k3 \in KRange(case.n[3]) : <<k1, k2, k3>> \in out.lp}
+            IN  IF col = {} THEN ColumnRoom(k1, k2, case.rl) < 0
+                ELSE LET lo == CHOOSE x \in col : \A y \in col : x <= y
+                         hi == CHOOSE x \in col : \A y \in col : x >= y
+                     IN  /\ col = lo .. hi
+                         /\ RunIsColumn(lo, hi, k1, k2, case.rl, case.n[3])
+                         /\ \A a \in KRange(case.n[3]), b \in KRange(case.n[3]) :
+                               RunIsColumn(a, b, k1, k2, case.rl, case.n[3]) => a = lo /\ b = hi
 
 -----------------------------------------------------------------------------
 \* emission (frequencies as positions in the unshifted DFT array, C order)
@@ -103,6 +119,7 @@ EmitTR ==
     \/ CASE case.kind = "hard" ->
               PrintT(ToJson([case |-> case, lp |-> LinSet(case.n, out'.lp), hp |-> LinSet(case.n, out'.hp),
                              lp2 |-> LinSet(case.n, out'.lp2), bp |-> LinSet(case.n, out'.bp)]))
-         [] case.kind = "pixels" -> PrintT(ToJson([case |-> case, pixels |-> out'.pixels, tie |-> out'.tie, inscope |-> out'.inscope]))
+         [] case.kind = "pixels" -> PrintT(ToJson([case |-> case, pixels |-> out'.pixels, tie |-> out'.tie, decided |-> out'.decided,
+                                                    inscope |-> out'.inscope]))
          [] OTHER -> TRUE
 =============================================================================
